@@ -31,6 +31,19 @@ for _c in CRASH_CLASSES:
         DISTINCT_CRASH_CLASSES.append(_c)
 
 
+_LIBRARY_CRASH = []
+
+
+def library_crash_class():
+    """An application exception that happens to derive from the library's ExecutionError (not from its resolver
+    error): still nothing a resolver is supposed to raise, hence unexpected."""
+    if not _LIBRARY_CRASH:
+        from py_gql.exc import ExecutionError
+
+        _LIBRARY_CRASH.append(type("CrashExecutionError", (Crash, ExecutionError), {}))
+    return _LIBRARY_CRASH[0]
+
+
 def crash(message, forced=None):
     from ..core import h64
 
